@@ -1,6 +1,7 @@
 mod entity;
 mod gen_serve;
 mod histories;
+mod negot;
 mod rng;
 mod serve_engine;
 mod val;
@@ -73,6 +74,16 @@ fn main() {
                 "C15" => {
                     drop(emit_serve);
                     histories::gen_c15(&mut rng, thorough, &mut cases, &mut meta, &prop);
+                }
+                "C16" => {
+                    drop(emit_serve);
+                    let mut k = 0u64;
+                    negot::gen_c16(&mut rng, thorough, &mut |c: negot::NegotCase| {
+                        let id = format!("{}-{}", prop, k);
+                        k += 1;
+                        writeln!(cases, "{}", negot::case_line(&id, &c)).unwrap();
+                        writeln!(meta, "{}\t{}\t", id, c.class.replace('\t', " ").replace('\n', " ")).unwrap();
+                    });
                 }
                 "C20" => {
                     gen_serve::gen_c07(&mut rng, true, &mut emit_serve);
